@@ -20,7 +20,17 @@ class Sim:
 def history(rng, timeout, length, placements=True):
     """-> list of op strings"""
     s = Sim()
-    ops = ["bind", "dolisten %d" % (1 if timeout else 0), "wait-accept"]
+    pre = []
+    if placements and rng.random() < 0.1:
+        # Shutdown lands after Bind and before the serving call has started: the serving call must still return
+        pre = ["bind", "shutdown", "dolisten %d" % (1 if timeout else 0), "wait-return", "active", "running", "closed", "listener-nil"]
+        if rng.random() < 0.3:
+            return pre
+    if placements and rng.random() < 0.06:
+        # a serving call on a service that is not bound fails and must leave the object usable
+        pre += ["dolisten %d" % (1 if timeout else 0), "wait-return", "running", "realbind 1", "running", "active"]
+        return pre
+    ops = pre + ["bind", "dolisten %d" % (1 if timeout else 0), "wait-accept"]
     s.bound = s.serving = True
     s.tmo = timeout
     for _ in range(length):
@@ -92,6 +102,9 @@ def history(rng, timeout, length, placements=True):
             ops += ["call %d" % i] if rng.random() < 0.3 else []
             ops += ["close %d" % i]
         ops += ["wait-return", "active", "running", "closed", "listener-nil"]
+        if rng.random() < 0.15:
+            # a serving call without a new Bind is refused and leaves the object usable
+            ops += ["dolisten 0", "wait-return", "running"]
         if rng.random() < 0.5:
             # reusable
             ops += ["bind", "dolisten 0", "wait-accept", "connect", "wait-accept", "call %d" % s.nconn, "close %d" % s.nconn, "shutdown", "wait-return", "active"]
@@ -159,10 +172,14 @@ def read_statement(ops, res):
         elif f[0] == "realbind":
             if serving and not shutdown and r != "err":
                 return "op %d: a second Bind during serving was not refused" % i
+            if not serving and f[1] == "1" and r != "ok":
+                return "op %d: no serving call is in progress but the service object cannot be bound again (%s)" % (i, r)
         elif f[0] == "listen":
             if serving and r != "refused":
                 return "op %d: a second Listen during serving was not refused" % i
         elif f[0] == "running":
+            if not serving and r != "F":
+                return "op %d: no serving call is in progress but the service still counts as running" % i
             if i > 0 and ops[i - 1].split()[0] in ("realbind", "listen") and serving and not shutdown and r != "T":
                 return "op %d: a refused Bind/Listen stopped the running service" % i
         elif f[0] == "listener-nil":
